@@ -163,7 +163,8 @@ hwloc_internal_memattrs_dup(struct hwloc_topology *new, struct hwloc_topology *o
     return -1;
   new->memattrs = imattrs;
   new->nr_memattrs = old->nr_memattrs;
-  memcpy(imattrs, old->memattrs, old->nr_memattrs * sizeof(*imattrs));
+  if (old->nr_memattrs)
+    memcpy(imattrs, old->memattrs, old->nr_memattrs * sizeof(*imattrs));
 
   for(id=0; id<old->nr_memattrs; id++) {
     struct hwloc_internal_memattr_s *oimattr = &old->memattrs[id];
